@@ -11,6 +11,7 @@ DeltaCurrent connections and LIF / ALIF neurons), runs operation sequences on th
 import copy
 import torch
 from common import main, fhex, exc_code
+from inferno import neural as _neural
 from inferno.neural import LIF, ALIF, DeltaCurrent, LinearDense, Serial, Biclique, RecurrentSerial
 
 KEEP = []
@@ -35,7 +36,29 @@ def build_conn(spec, B, dt):
     return c
 
 
+def adapt_attr(n):
+    """name of the neuron group's learned-adaptation attribute, if it has one"""
+    for a in ("threshold_adaptation", "current_adaptation"):
+        if hasattr(n, a):
+            return a
+    return None
+
+
+def get_adapt(n):
+    a = adapt_attr(n)
+    return None if a is None else getattr(n, a)
+
+
+def set_adapt(n, t):
+    setattr(n, adapt_attr(n), t)
+
+
 def build_neuron(spec, B, dt):
+    if spec.get("cls"):
+        # any neuron class of inferno.neural, keyword arguments as given (oracle-only stream: these classes have no
+        # Coq model in C17; the layer theorems are generic in them)
+        kw = {k: (tuple(v) if isinstance(v, list) else v) for k, v in spec["kw"].items()}
+        return getattr(_neural, spec["cls"])(tuple(spec["shape"]), dt, batch_size=B, **kw)
     if spec.get("acfg") is None:
         return LIF(tuple(spec["shape"]), dt, rest_v=spec["rest"], reset_v=spec["reset"], thresh_v=spec["thresh"],
                    refrac_t=spec["refrac_t"], time_constant=spec["tc"], resistance=spec["res"], batch_size=B)
@@ -124,8 +147,8 @@ def snap_conn(c):
 
 def snap_neuron(n):
     a = []
-    if hasattr(n, "threshold_adaptation"):
-        ta = n.threshold_adaptation.detach()
+    if adapt_attr(n):
+        ta = get_adapt(n).detach()
         a = [[fhex(x) for x in r] for r in ta.reshape(-1, ta.shape[-1]).tolist()]
     return [[fhex(x) for x in n.voltage.reshape(-1).tolist()], [fhex(x) for x in n.refrac.reshape(-1).tolist()],
             a, enc_t(n.spike)]
@@ -194,8 +217,8 @@ class Twin:
         for s, n in zip(self.nspec, self.neurs):
             f = build_neuron(s, self.B, self.dt)
             f.train(n.training)
-            if hasattr(n, "threshold_adaptation") and keep_adapt:
-                f.threshold_adaptation = n.threshold_adaptation.detach().clone()
+            if adapt_attr(n) and keep_adapt:
+                set_adapt(f, get_adapt(n).detach().clone())
             nn_.append(f)
         self.conns, self.neurs = nc, nn_
         KEEP.extend(nc + nn_)
@@ -274,7 +297,7 @@ class Twin:
 def teq(a, b):
     if tuple(a.shape) != tuple(b.shape) or a.dtype != b.dtype:
         return False
-    return bool(torch.allclose(a.to(torch.float64), b.to(torch.float64), rtol=1e-9, atol=1e-12))
+    return bool(torch.allclose(a.to(torch.float64), b.to(torch.float64), rtol=1e-9, atol=1e-12, equal_nan=True))
 
 
 def sig(case, kind, **kw):
@@ -346,7 +369,7 @@ def check_state(case, layer, twin, i, fails, after):
                               f"({'freshly built' if after.startswith('after clear') else 'standalone'} component): {why}",
                               "signature": sig(case, "clear_neuron" if after.startswith("after clear")
                                                else "state_neuron", refrac_t_zero=refrac0(case))})
-        if hasattr(n, "threshold_adaptation") and not teq(ln.threshold_adaptation, n.threshold_adaptation):
+        if adapt_attr(n) and not teq(get_adapt(ln), get_adapt(n)):
             fails.append({"step": i, "what": f"adaptations of neuron group {s['name']} {after}",
                           "signature": sig(case, "adaptations")})
     if case["kind"] == "recurrent" and after == "after forward":
@@ -379,7 +402,7 @@ def apply_learn(case, layer_or_twin, op, is_twin):
         getn(op[1]).train(bool(op[2]))
     elif k == "adapt":
         n = getn(op[1])
-        n.threshold_adaptation = torch.tensor(op[2], dtype=torch.float64).reshape(n.threshold_adaptation.shape)
+        set_adapt(n, torch.tensor(op[2], dtype=torch.float64).reshape(get_adapt(n).shape))
     else:
         raise AssertionError(k)
 
@@ -431,6 +454,7 @@ def run_case(case):
             fails.append({"step": -1, "what": f"constructor raised {type(e).__name__}: {e}"[:300],
                           "signature": sig(case, "constructor_raised")})
         return {"trace": [[1, c] if c != 9 else [1, 9, f"{type(e).__name__}: {e}"[:200]]], "oracle": fails}
+    stats = {"adaptive_clears": []}
     twin = Twin(case)
     # second reference, only for recurrent layers with a refrac_t == 0 group: the attribute reading of the finding
     twinA = Twin(case, use_attr=True) if (case["kind"] == "recurrent" and refrac0(case)) else None
@@ -503,6 +527,13 @@ def run_case(case):
                 else:
                     cf, sub, keep = None, op[1], op[2]
                 kw = {} if keep is None else {"keep_adaptations": bool(keep)}
+                # the learned state as the layer itself holds it right before clear()
+                before = {}
+                for sp in case["neurs"]:
+                    ln = layer.get_neuron(nm(sp["name"]))
+                    if adapt_attr(ln):
+                        before[sp["name"]] = get_adapt(ln).detach().clone()
+                wbefore = {sp["name"]: layer.get_connection(nm(sp["name"])).weight.detach().clone() for sp in case["conns"]}
                 try:
                     if kind == "recurrent":
                         layer.clear(clear_feedback=cf, submodules=sub, **kw)
@@ -512,6 +543,27 @@ def run_case(case):
                     fails.append({"step": i, "what": f"clear() raised {type(e).__name__}: {e}"[:300],
                                   "signature": sig(case, "clear_raised")})
                     raise
+                # "learned parameters and adaptations are kept" stated directly on the layer: unchanged by clear()
+                # (default arguments or keep_adaptations=True), zeroed only on an explicit keep_adaptations=False
+                for name, a0 in before.items():
+                    ln = layer.get_neuron(nm(name))
+                    a1 = get_adapt(ln)
+                    cls = type(ln).__name__
+                    kept = (keep is None or bool(keep)) or not sub
+                    nonzero = bool(a0.abs().sum() > 0)
+                    stats["adaptive_clears"].append([cls, "default" if keep is None else str(bool(keep)), bool(sub), nonzero])
+                    if kept and not teq(a1, a0):
+                        fails.append({"step": i, "what": f"clear({'keep_adaptations=True' if keep else 'default arguments'}) "
+                                      f"changed the learned adaptations of the {cls} group {name}: before "
+                                      f"{a0.reshape(-1).tolist()[:6]} after {a1.reshape(-1).tolist()[:6]}",
+                                      "signature": sig(case, "clear_lost_adaptations", neuron=cls)})
+                    if not kept and bool(a1.abs().sum() > 0):
+                        fails.append({"step": i, "what": f"clear(keep_adaptations=False) left adaptations of the {cls} group {name}",
+                                      "signature": sig(case, "clear_kept_adaptations", neuron=cls)})
+                for name, w0 in wbefore.items():
+                    if not torch.equal(layer.get_connection(nm(name)).weight, w0):
+                        fails.append({"step": i, "what": f"clear() changed the weights of connection {name}",
+                                      "signature": sig(case, "clear_changed_weights")})
                 for tw in refs:
                     if sub:
                         tw.fresh_like(keep_adapt=(keep is None or bool(keep)))
@@ -532,7 +584,7 @@ def run_case(case):
             c = exc_code(e)
             trace.append([1, c] if c != 9 else [1, 9, f"{type(e).__name__}: {e}"[:200]])
             break
-    return {"trace": trace, "oracle": fails}
+    return {"trace": trace, "oracle": fails, "stats": stats}
 
 
 def handler(payload):
